@@ -113,6 +113,12 @@ impl CachedBlocks {
     }
   }
 
+  /// Select the switchable ROM bank that lookups and insertions in the
+  /// 0x4000-0x7fff region refer to.
+  pub fn set_rom_bank(&mut self, bank: u16) {
+    self.rom_high.set_bank(bank);
+  }
+
   pub fn get_region(&self, addr: u16) -> Option<&CacheRegion> {
     if addr < 0x4000 {
       return Some(&self.rom_low);
